@@ -83,6 +83,66 @@ theorem ostream_flush_terminates (hC : EncContract C Dec) {bufsz : Nat} (hb : 0 
   obtain ⟨_, x, _, _, _, _, hcur, _, _⟩ := hI'
   exact (List.append_eq_nil_iff.1 hcur.symm).2
 
+/--
+**istream_transparent.**  Let the wrapped stream hold any sequence of members `ms` with contents `xs` (concatenated
+members; none at all is allowed), let it hand its bytes out in any chunking (`script`), and let the reader call
+`get_buffered_data(want ≥ 1)` / `advance_buffer(min take size)` in any pattern (`ops`).  Then no call fails or
+hangs; what the reader has taken is always a prefix of the concatenated contents; end-of-stream is reported only
+when **everything** has been delivered; and a reader that takes at least one byte per round either sees the end or
+has received one byte per round (so `|content| + 1` rounds always reach the end).  The buffer size is arbitrary,
+so "input ending exactly at the buffer edge" is covered.
+-/
+theorem istream_transparent (hD : DecContract C Dec) {bufsz : Nat} (hb : 0 < bufsz) {ms xs : List Bytes}
+    (hms : Members Dec ms xs) (script : List Nat) (ops : List (Nat × Nat)) (hw : ∀ op ∈ ops, 0 < op.1) :
+    ∃ fuel st acc eof, (∀ f, fuel ≤ f → iRead C bufsz f (iInit C ⟨ms.flatten, script⟩) ops [] = some (.ok (st, acc, eof))) ∧
+      IsPre acc xs.flatten ∧ (eof = true → acc = xs.flatten) ∧
+      ((∀ op ∈ ops, 0 < op.2) → eof = true ∨ ops.length ≤ acc.length) := by
+  have hG : G hD false (iInit C ⟨ms.flatten, script⟩).cs (ms.flatten ++ []) (xs.flatten ++ []) :=
+    G_boundary hD hD.init hms (Or.inl ⟨rfl, rfl⟩) ⟨fun h => (by cases h), fun h => absurd rfl h⟩
+  have hI : IInv hD false bufsz (iInit C ⟨ms.flatten, script⟩) xs.flatten :=
+    ⟨Nat.le_refl _, Nat.zero_le _, by simpa [iInit] using hG⟩
+  obtain ⟨f0, r, hrun, hpost⟩ := iRead_spec hD hb xs.flatten ops _ _ [] hI (by simp [iInit]) hw
+  rcases hpost with ⟨_, hT⟩ | ⟨st, acc, eof, rfl, hp, he, hl⟩
+  · cases hT
+  · exact ⟨f0, st, acc, eof, hrun, hp, fun h => (he h).2, fun h => by simpa using hl h⟩
+
+/--
+**truncated_is_error.**  Let the wrapped stream hold complete members `ms` followed by a non-empty proper prefix `t`
+of a valid member (`t ++ t'` valid, `t' ≠ []`): a compressed input cut off in mid-member.  Then, for every
+chunking and every reader with `want ≥ 1`, the stream **never reports end-of-stream**: the run either ends in
+`SQFS_ERROR_COMPRESSOR`, or the reader has not been told that the data is over; what was handed out before is a
+prefix of the intended contents; and a reader that takes at least one byte per round for more rounds than there
+are content bytes gets the error.
+-/
+theorem truncated_is_error (hD : DecContract C Dec) {bufsz : Nat} (hb : 0 < bufsz) {ms xs : List Bytes}
+    (hms : Members Dec ms xs) {t t' xT : Bytes} (ht : t ≠ []) (ht' : t' ≠ []) (hcut : Dec (t ++ t') = some xT)
+    (script : List Nat) (ops : List (Nat × Nat)) (hw : ∀ op ∈ ops, 0 < op.1) :
+    ∃ fuel r, (∀ f, fuel ≤ f → iRead C bufsz f (iInit C ⟨ms.flatten ++ t, script⟩) ops [] = some r) ∧
+      (r = .error errCompressor ∨
+       ∃ st acc, r = .ok (st, acc, false) ∧ IsPre acc (xs.flatten ++ xT)) ∧
+      ((∀ op ∈ ops, 0 < op.2) → (xs.flatten ++ xT).length < ops.length → r = .error errCompressor) := by
+  have hG : G hD true (iInit C ⟨ms.flatten ++ t, script⟩).cs (ms.flatten ++ t) (xs.flatten ++ xT) :=
+    G_boundary hD hD.init hms (Or.inr ⟨ht, t', ht', hcut⟩) ⟨fun _ => ht, fun _ => rfl⟩
+  have hI : IInv hD true bufsz (iInit C ⟨ms.flatten ++ t, script⟩) (xs.flatten ++ xT) :=
+    ⟨Nat.le_refl _, Nat.zero_le _, by simpa [iInit] using hG⟩
+  obtain ⟨f0, r, hrun, hpost⟩ := iRead_spec hD hb (xs.flatten ++ xT) ops _ _ [] hI (by simp [iInit]) hw
+  refine ⟨f0, r, hrun, ?_, ?_⟩
+  · rcases hpost with ⟨h, _⟩ | ⟨st, acc, eof, rfl, hp, he, _⟩
+    · exact Or.inl h
+    · right
+      cases eof with
+      | false => exact ⟨st, acc, rfl, hp⟩
+      | true => exact absurd (he rfl).1 (by simp)
+  · intro htake hlen
+    rcases hpost with ⟨h, _⟩ | ⟨st, acc, eof, rfl, hp, he, hl⟩
+    · exact h
+    · exfalso
+      rcases hl htake with h | h
+      · exact absurd (he h).1 (by simp)
+      · have := hp.length_le
+        simp only [List.length_nil, Nat.zero_add] at h
+        omega
+
 /-- Non-vacuity: the toy codec (internal queue, limited intake and output granularity, any knob setting) meets
 the encoder contract with the toy format's one-shot decoder. -/
 theorem toy_encoder_meets_contract (P : Toy.Params) : Nonempty (EncContract (Toy.encoder P) Toy.decode) :=
